@@ -1,5 +1,11 @@
 //! Counting global allocator: records the largest single allocation requested inside a window
 //! (C16/C17: "never allocate more than the input", observed from outside).
+//!
+//! A request of `ABSURD` bytes or more (1 TiB; the harness itself never asks for a fraction of that)
+//! cannot be satisfied and makes the Rust runtime abort the process. So that such an abort is decided
+//! rather than reported as a dead worker, the allocator leaves a marker line on stdout first (raw
+//! `write` system call, no allocation, not through the interposer); the driver attributes the death
+//! of a worker whose last line is that marker to the run it was executing (class `process-abort`).
 
 use std::alloc::{GlobalAlloc, Layout, System};
 use std::sync::atomic::{AtomicBool, AtomicUsize, Ordering};
@@ -9,16 +15,56 @@ pub struct Counting;
 static ON: AtomicBool = AtomicBool::new(false);
 static MAX: AtomicUsize = AtomicUsize::new(0);
 
+pub const ABSURD: usize = 1 << 40;
+pub const ABSURD_MARKER: &str = "CASIM-ABSURD-ALLOC ";
+
+#[cold]
+fn absurd(size: usize) {
+    let mut buf = [0u8; 64];
+    let m = ABSURD_MARKER.as_bytes();
+    // leading newline: the marker always starts a line of its own
+    buf[0] = b'\n';
+    buf[1..1 + m.len()].copy_from_slice(m);
+    let mut n = 1 + m.len();
+    let mut digits = [0u8; 20];
+    let mut d = 0;
+    let mut v = size;
+    loop {
+        digits[d] = b'0' + (v % 10) as u8;
+        d += 1;
+        v /= 10;
+        if v == 0 {
+            break;
+        }
+    }
+    while d > 0 {
+        d -= 1;
+        buf[n] = digits[d];
+        n += 1;
+    }
+    buf[n] = b'\n';
+    n += 1;
+    unsafe {
+        libc::syscall(libc::SYS_write, 1 as libc::c_long, buf.as_ptr(), n);
+    }
+}
+
 unsafe impl GlobalAlloc for Counting {
     unsafe fn alloc(&self, l: Layout) -> *mut u8 {
         if ON.load(Ordering::Relaxed) {
             MAX.fetch_max(l.size(), Ordering::Relaxed);
+        }
+        if l.size() >= ABSURD {
+            absurd(l.size());
         }
         System.alloc(l)
     }
     unsafe fn alloc_zeroed(&self, l: Layout) -> *mut u8 {
         if ON.load(Ordering::Relaxed) {
             MAX.fetch_max(l.size(), Ordering::Relaxed);
+        }
+        if l.size() >= ABSURD {
+            absurd(l.size());
         }
         System.alloc_zeroed(l)
     }
@@ -28,6 +74,9 @@ unsafe impl GlobalAlloc for Counting {
     unsafe fn realloc(&self, p: *mut u8, l: Layout, new: usize) -> *mut u8 {
         if ON.load(Ordering::Relaxed) {
             MAX.fetch_max(new, Ordering::Relaxed);
+        }
+        if new >= ABSURD {
+            absurd(new);
         }
         System.realloc(p, l, new)
     }
